@@ -361,3 +361,145 @@ class GuardedWritesSurface(Contract):
         out.append((fn.name, fn.name in contracted,
                     f'{fn.name} writes {sorted(writes)}' + ('' if fn.name in contracted else ' without a GUARDED contract')))
     return out
+
+
+# ---------------------------------------------------------------------------
+# Feedback.done / skip: "every completed trial is reported to the search
+# algorithm exactly once".  The worker that wins the PENDING -> COMPLETED
+# test-and-set (`_mark_completed`, proved above) -- and only that worker --
+# reports the trial, exactly once, and books it with `_complete_trial`; a
+# refused `done()` (no measurement yet) has not touched the trial's status.
+
+class _Finish(Contract):
+  prop = 'C16'
+  raises = {ValueError: ('refused_call_did_not_complete_the_trial',)}
+  reports = True
+
+  def inputs(self, b):
+    self._won = b.bool('won_the_transition')
+    trial = SObj(protocols.Trial, {'status': b.choice('status', ['PENDING', 'COMPLETED']),
+                                   'measurements': b.choice('has_measurement', [[], [SAny('m0')], [SAny('m0'), SAny('m1')]]),
+                                   'metadata': SAny('trial_metadata'), 'id': 7, 'dna': SAny('dna')}, name='trial')
+    trial.ghost['raw_setattr'] = True
+    study = SObj(lb._InMemoryResult, {}, name='study')
+    fb = SObj(lb._InMemoryFeedback, {'_trial': trial, '_study': study, '_feedback_fn': SAny('feedback_fn'),
+                                     '_dna_spec': SAny('spec'), '_sym_attributes': SAny('attrs')}, name='self')
+    self._trial, self._study = trial, study
+    return dict(self=fb), {}
+
+  def setup_policy(self, policy):
+    me = self
+
+    def mark(interp, frame, args, kwargs):
+      interp.path.event('mark', '_mark_completed', (interp.resolve(args[1]),))
+      return SBool(me._won.z)
+    policy.contracts[f'{LB}:_InMemoryResult._mark_completed'] = mark
+
+    def complete(interp, frame, args, kwargs):
+      interp.path.event('complete', '_complete_trial', (interp.resolve(args[1]),))
+      return None
+    policy.contracts[f'{LB}:_InMemoryResult._complete_trial'] = complete
+
+    def call_opaque(interp, fn, args, kwargs, frame):
+      if isinstance(fn, SAny) and fn.tag == 'feedback_fn':
+        interp.path.event('report', 'feedback_fn', [interp.resolve(a) for a in args])
+        return None
+      return NotImplemented
+    policy.handlers[('call_opaque',)] = call_opaque
+
+    def getattr_h(interp, obj, name, frame):
+      if isinstance(obj, SObj) and obj.cls is lb._InMemoryFeedback and name in ('dna', 'id'):
+        return me._trial.fields[name]
+      return NotImplemented
+    policy.handlers[('getattr', SObj)] = getattr_h
+    policy.handlers[('new', protocols.Measurement)] = lambda interp, a, k, f: SAny('measurement')
+
+  def trace_winner_reports_exactly_once_loser_not_at_all(self, events, outcome, interp, env):
+    if outcome[0] != 'return':
+      return True
+    marks = [e for e in events if e.kind == 'mark']
+    reports = [e for e in events if e.kind == 'report']
+    completes = [e for e in events if e.kind == 'complete']
+    if len(marks) > 1:
+      return False
+    n_rep = 1 if self.reports else 0
+    if not marks:
+      # did not even try (trial was not pending): nothing may be reported or booked
+      return not reports and not completes
+    won = self._won.z
+    winner_ok = (len(reports) == n_rep and len(completes) == 1
+                 and all(r.data[-1] is self._trial for r in reports) and completes[0].data[0] is self._trial)
+    loser_ok = not reports and not completes
+    # the event lists are those of this path: the path condition fixes `won`
+    return z3.If(won, z3.BoolVal(bool(winner_ok)), z3.BoolVal(bool(loser_ok)))
+
+  def trace_report_and_booking_follow_the_transition(self, events, outcome, interp, env):
+    idx = {k: [i for i, e in enumerate(events) if e.kind == k] for k in ('mark', 'report', 'complete')}
+    if not idx['mark']:
+      return not idx['report'] and not idx['complete']
+    m0 = idx['mark'][0]
+    order_ok = all(i > m0 for i in idx['report'] + idx['complete'])
+    if self.reports and idx['report'] and idx['complete']:
+      order_ok = order_ok and idx['report'][0] < idx['complete'][0]
+    return order_ok
+
+  def raises_refused_call_did_not_complete_the_trial(self, self_):
+    return True
+
+  def trace_refusal_precedes_the_transition(self, events, outcome, interp, env):
+    if outcome[0] != 'raise':
+      return True
+    return not [e for e in events if e.kind in ('mark', 'report', 'complete')]
+
+
+@register
+class FeedbackDone(_Finish):
+  target = f'{LB}:_InMemoryFeedback.done'
+  reports = True
+
+  def inputs(self, b):
+    args, ghost = super().inputs(b)
+    args.update(metadata=None, related_links=None)
+    return args, ghost
+
+  def replay(self, obligation, m):
+    import pyglove as pg
+    algo = pg.geno.Random(seed=1)
+    reported = []
+    class _Algo(pg.geno.Random):
+      def _feedback(self, dna, reward):
+        reported.append(reward)
+    it = pg.sample(pg.Dict(x=pg.oneof([1, 2, 3])), _Algo(seed=1), num_examples=1, name=f'replay_done_{id(reported)}')
+    _, fb = next(it)
+    try:
+      fb.done()
+      refused = False
+    except ValueError:
+      refused = True
+    status_after_refusal = fb.get_trial().status
+    later = 'ok'
+    try:
+      fb.add_measurement(1.0)
+      fb.done()
+    except Exception as e:  # pylint: disable=broad-except
+      later = f'{type(e).__name__}'
+    bad = (refused and status_after_refusal != 'PENDING') or len(reported) != 1 or later != 'ok'
+    return dict(outcome='reproduced' if bad else 'not-reproduced',
+                detail=f'done() without a measurement refused={refused}, trial status afterwards {status_after_refusal}; '
+                       f'then add_measurement + done(): {later}; rewards reported to the algorithm: {reported}')
+
+  def small_models(self):
+    from pyvc.contracts import Model
+    yield Model({}, {})
+
+
+@register
+class FeedbackSkip(_Finish):
+  target = f'{LB}:_InMemoryFeedback.skip'
+  reports = False
+  raises = {}
+
+  def inputs(self, b):
+    args, ghost = super().inputs(b)
+    args.update(reason=None)
+    return args, ghost
